@@ -444,3 +444,8 @@ B('C10.factory-override-aliases-codes', ['C10', 'C15'], [(P + 'tls/algorithm.py'
 N('benign.factory-override-delegates', [(P + 'tls/algorithm.py', _NC_FACTORY, _NC_FACTORY +
   "\n    @classmethod\n    def _parse(cls, parsable):\n        named_curve, parsed_length = super(TlsNamedCurveFactory, cls)._parse(parsable)\n"
   "        return named_curve, parsed_length\n")])
+# a vector composer that writes its items sorted: the parser keeps wire order (fingerprints are taken over the composed blob)
+B('C16.vector-composed-sorted', ['C16', 'C01'], [(P + 'common/base.py',
+  "    def compose(self):\n        body_composer = ComposerBinary()\n        body_composer.compose_parsable_array(self._items)\n\n        header_composer = ComposerBinary()\n        header_composer.compose_numeric(body_composer.composed_length, self.param.item_num_size)\n\n        return header_composer.composed_bytes + body_composer.composed_bytes\n\n\nclass VectorEnumCodeNumeric",
+  "    def compose(self):\n        body_composer = ComposerBinary()\n        body_composer.compose_parsable_array(sorted(self._items, key=lambda item: item.compose()))\n\n        header_composer = ComposerBinary()\n        header_composer.compose_numeric(body_composer.composed_length, self.param.item_num_size)\n\n        return header_composer.composed_bytes + body_composer.composed_bytes\n\n\nclass VectorEnumCodeNumeric")],
+  mention=['wire order'])
